@@ -119,7 +119,7 @@ def run(prop, tier, seed):
         else:
             graphs = rng.sample(graphs, min(len(graphs), 1500))
         for tr in graphs:
-            jobs.append((rng.randrange(1 << 30), tr, rng.choice(["int", "str"]), rng.choice(["neg", "big", "str", "int_rev"]), tier, nodes))
+            jobs.append((rng.randrange(1 << 30), tr, rng.choice(["int", "zero", "str"]), rng.choice(["neg", "big", "str", "int_rev"]), tier, nodes))
     for _ in range(15 if tier == "quick" else 300):
         nn = rng.choice([4, 5])
         tm = rng.choice([3, 4, 5])
